@@ -78,6 +78,56 @@ def em_norm(ctx: Ctx):
                "one '..' segment can take back more than one segment of the resolved path (the removal is repeated within one "
                "iteration of the segment loop): RFC 3986 5.2.4 removes exactly the last segment, so 'a//..' keeps 'a/'",
                where(fi, e.node), sample="one removal per iteration of the segment loop")
+    # the trailing-slash rule (RFC 3986 5.2.4 2B/2C: "/." and "/.." are replaced by "/"): when the last input segment is a dot
+    # segment the result ends with one added '' - on every such path, whatever the resolved segments look like - and never otherwise
+    tr_app = lambda kind, t: kind == "call" and t[1][0] == "attr" and t[1][2] in ("append", "extend", "insert")
+    ru = analyze(model, fi, merge=False, trace=tr_app, trace_key="appends")
+    segs = ("param", fi.params[0])
+    last = ("sub", segs, ("const", -1))
+
+    def members(t):
+        if t[0] in ("tuple", "list", "set"):
+            return {x[1] for x in t[1] if x[0] == "const"}
+        try:
+            from ..fold import CannotFold, Folder
+            return set(Folder(model).fold(t))
+        except Exception:
+            return set()
+
+    def last_is_dot(f):
+        for k, v in f.items():
+            if k[0] == "cmp" and k[1] in ("In", "NotIn") and k[2] == last and members(k[3]) == {".", ".."}:
+                return (k[1] == "In") == bool(v)
+        a, b = truth(("cmp", "Eq", last, ("const", ".")), f), truth(("cmp", "Eq", last, ("const", "..")), f)
+        if a is True or b is True:
+            return True
+        if a is False and b is False:
+            return False
+        return None
+    verdicts = {}
+    for s_, v, node in ru.returns:
+        closed = v[0] == "mut" and v[2] == "append" and v[3] == (("const", ""),)
+        if v[0] == "binop" and v[1] == "Add" and v[3] == ("list", (("const", ""),)):
+            closed = True
+        # `[*resolved, ""]`
+        if v[0] == "list" and len(v[1]) == 2 and v[1][0][0] == "star" and v[1][1] == ("const", ""):
+            closed = True
+        # ... or the same append through a bound-method alias (`append = resolved_path.append`): seen as a call on the path
+        if any(t[0] == "call" and t[1][2] == "append" and t[2] == (("const", ""),) and
+               ((_base(t[1][1])[0] == "phi" and _base(t[1][1])[2] == acc) or _base(t[1][1])[0] == "list") for t in s_.trace):
+            closed = True
+        d = False if truth(segs, s_.facts) is False else last_is_dot(s_.facts)
+        if d is None:
+            raise AnalysisError("normalize_path_segments: a return path does not know whether the last segment is a dot segment "
+                                "(the trailing-slash rule is spelled in an unknown idiom)")
+        verdicts.setdefault((id(node), d), [node, d, []])[2].append(closed == d)
+    for node, d, oks in verdicts.values():
+        ctx.instance(rule)
+        ctx.ob(rule, fi.qual, "trailing '' after a final dot segment" if d else "no '' added when the last segment is not a dot segment", all(oks),
+               ("the last segment is '.' or '..' but a path returns without the added '': the trailing slash RFC 3986 5.2.4 keeps ('/a//.' "
+                "-> '/a//') depends on what the resolved segments happen to end with") if d else
+               "a '' is appended although the last segment is not a dot segment: a trailing slash is invented",
+               where(fi, node), sample="append('') exactly when segments[-1] is '.' or '..'")
     # normalize_path: keeps the root, splits on '/', re-joins the resolver's output
     fp = model.func("_path.normalize_path")
     rp = analyze(model, fp, merge=False)        # small function: keep every path apart (rootedness is a two-test condition)
@@ -262,3 +312,88 @@ def flag_accumulates(ctx: Ctx):
                    where(fi, r.loops[lid]), sample="flag |= ('.' in segment)")
     if not n:
         raise AnalysisError("FLAG-ACC: no loop-carried dot-detection flag found (anchor vanished)")
+
+
+def ord2_name(ctx: Ctx):
+    """ORD2-NAME: with_name() / with_suffix() put a new last segment into the path without running the dot-segment remover, so
+    under an authority that segment must be known not to be '.' or '..' on every path to the constructor (a test of the
+    segment itself, or of the text a non-requoting quoter produced it from: such a quoter escapes '%', so it cannot create a dot
+    segment). Otherwise 'http://h/d/..x'.with_suffix('') stores a '..' segment that the next parse removes."""
+    from .flow import outcomes
+    from .quoters import configurations
+    model = ctx.model
+    rule = "ORD2-NAME"
+    ctx.rule(rule, floor=2, what="the last segment set by with_name()/with_suffix() is never a dot segment under an authority")
+    cfgs = configurations(model)
+    DOTS = (("const", "."), ("const", ".."))
+
+    def not_dot(e, f):
+        def holds_dots(t):
+            if t[0] in ("tuple", "list", "set"):
+                return all(d in t[1] for d in DOTS)
+            try:
+                from ..fold import Folder
+                return {".", ".."} <= set(Folder(model).fold(t))
+            except Exception:
+                return False
+
+        def known(x):
+            for k, v in f.items():
+                if k[0] == "cmp" and k[1] == "In" and k[2] == x and v is False and holds_dots(k[3]):
+                    return True
+                if k[0] == "cmp" and k[1] == "NotIn" and k[2] == x and v is True and holds_dots(k[3]):
+                    return True
+            return all(truth(("cmp", "Eq", x, d), f) is False for d in DOTS)
+        if known(e):
+            return True
+        if e[0] == "call" and e[1][0] == "global" and e[1][1] == "_quoters" and len(e[2]) == 1 and \
+                e[1][2] in cfgs and cfgs[e[1][2]][1].get("requote") is False:
+            return known(e[2][0])
+        return False
+
+    for name in ("with_name", "with_suffix"):
+        if not model.has_func(f"_url.URL.{name}"):
+            raise AnalysisError(f"anchor vanished: URL.{name}")
+        pub = model.func(f"_url.URL.{name}")
+        params = {("param", p) for p in pub.params if p not in ("self", "cls")}
+        sites = {}
+        for fi, s, node, kind, payload in outcomes(model, name):
+            if kind != "sink":
+                continue
+            ctx.functions.add(fi.qual)
+            netloc, path = payload[1], payload[2]
+            if any(is_norm_call(t) for t in walk(path)):
+                continue        # normalised afterwards
+            # the segments this call puts in: arguments of list updates / display elements / template parts that derive from the
+            # public method's arguments
+            new = []
+            for t in walk(path):
+                cands = ()
+                if t[0] == "mut" and t[2] in ("append", "setitem", "insert", "extend"):
+                    cands = t[3][-1:]
+                elif t[0] in ("list", "tuple"):
+                    cands = t[1]
+                elif t[0] == "fstr":
+                    cands = tuple(p[1] for p in t[1] if p[0] == "fmt")        # f"{head}{slash}{name}": the formatted values
+                for c in cands:
+                    if c[0] != "const" and any(x in params or (x[0] == "attr" and x[1] == S) for x in walk(c)) and \
+                            any(x in params for x in walk(c)):
+                        new.append(c)
+            if not new:
+                if any(x in params for x in walk(path)):
+                    raise AnalysisError(f"ORD2-NAME: cannot tell which segment of {show(path)[:70]} {name}() supplies (unknown idiom)")
+                continue
+            for f in alternatives(s.facts, [netloc]):
+                if truth(netloc, f) is False:
+                    continue
+                for e in new:
+                    sites.setdefault((id(node), show(e)), [fi, node, e, []])[3].append(not_dot(e, f))
+        for fi, node, e, oks in sites.values():
+            ctx.instance(rule)
+            ctx.ob(rule, fi.qual, f"{name}: last segment {show(e)[:50]}", all(oks),
+                   f"{name}() stores {show(e)[:50]} as the last path segment under an authority on a path where it is not known to differ "
+                   "from '.' and '..': the URL then holds a dot segment that parsing its own string form removes", where(fi, node),
+                   sample="segment (or the text it was quoted from) tested against '.' and '..'")
+
+
+S = ("param", "self")
